@@ -13,7 +13,7 @@
 From Coq Require Import NArith Bool List Lia.
 From stdpp Require Import base list option.
 From RecordUpdate Require Import RecordSet.
-From RC Require Import Hdr Machine RunInd Inv InvP SafeMain SafeProps Pass PassMain SafeFinalPropsA SafeFinalProps.
+From RC Require Import Hdr Machine RunInd Inv InvP SafeMain SafeProps Pass PassMain SafeFinalPropsA SafeFinalProps SafeFinal SafeFinalProg.
 Import ListNotations RecordSetNotations.
 Local Open Scope N_scope.
 
@@ -105,6 +105,29 @@ Theorem C04_last_owner :
     In (EFree o (box_layout K x).1 (box_layout K x).2) (log mf).
 Proof. exact SafeFinalProps.last_owner. Qed.
 Print Assumptions C04_last_owner.
+
+(** ** Program level: what a top-level [strong_count]/[weak_count] through a slot reports in
+    every state reached by every well-formed program (unless cut by fuel / aborted): never
+    less than the number of existing strong handles, exactly that number while no panic was
+    caught; the weak count is exact. *)
+Theorem C04_program_count :
+  forall (K : conf) (P : prog) (fuel : nat) (cmds : list cmd),
+  (k_clean K = true -> k_weak K = true) -> wf_prog P = true ->
+  forallb (fun e => match e with EBad Fuel _ | EBad Abort _ => false | _ => true end)
+          (log (fold_left (fun m c => exec_top K P fuel c m) cmds (init K))) = true ->
+  forall (i : nat) (o : id), (i < nslots)%nat ->
+  slots (fold_left (fun m c => exec_top K P fuel c m) cmds (init K)) !! i = Some (Some o) ->
+  exists (x : obj) (rc : N),
+    get (fold_left (fun m c => exec_top K P fuel c m) cmds (init K)) o = Some x /\
+    cmd_obs None (LS i) (fold_left (fun m c => exec_top K P fuel c m) cmds (init K)) =
+      ok (emit (EObs o rc (N.of_nat (wrefs (fold_left (fun m c => exec_top K P fuel c m) cmds (init K)) o))
+                     (h_fin (o_hdr x)) true)
+               (fold_left (fun m c => exec_top K P fuel c m) cmds (init K))) ROk /\
+    N.of_nat (refs (fold_left (fun m c => exec_top K P fuel c m) cmds (init K)) o) <= rc <= max_rc /\
+    (no_panic_yet (fold_left (fun m c => exec_top K P fuel c m) cmds (init K)) = true ->
+     rc = N.of_nat (refs (fold_left (fun m c => exec_top K P fuel c m) cmds (init K)) o)).
+Proof. exact SafeFinalProg.prog_obs_count. Qed.
+Print Assumptions C04_program_count.
 
 (** ** Pins *)
 Check C04_strong_count_exact :
